@@ -27,7 +27,7 @@ TRUE = z3.BoolVal(True)
 
 
 def base_axioms(c):
-    c.axiom("inf", z3.And(NINF < -(2 ** 1100), PINF > 2 ** 1100))
+    c.axiom("inf", z3.And(PINF > 2 ** 1100, NINF == -PINF))
 
 
 # ---------------------------------------------------------------------------------------------
@@ -309,24 +309,46 @@ def _arith(op, a, b):
 
 
 def _arith_real(c, op, a, b):
-    for x in (a, b):
-        if x.minf or not z3.is_false(x.nan):
-            if _isinfc(x.r) or z3.is_true(x.nan):
-                raise Unsupported("REAL-model arithmetic on a literal inf/nan")
-            c.oblige("real.operand_finite", _fin(x), kind="side")
-    if op == "add":
-        r = a.r + b.r
-    elif op == "sub":
-        r = a.r - b.r
+    """Exact (extended-)real arithmetic: no rounding, no overflow; infinities and NaN follow the IEEE tables."""
+    ext = a.minf or b.minf or not z3.is_false(a.nan) or not z3.is_false(b.nan)
+    if not ext:
+        if op == "add":
+            r = a.r + b.r
+        elif op == "sub":
+            r = a.r - b.r
+        elif op == "mul":
+            r = a.r * b.r
+        else:
+            c.oblige("real.divisor_nonzero", b.r != 0, kind="side")
+            r = a.r / b.r
+        r = z3.simplify(r)
+        if not z3.is_rational_value(r):
+            c.axiom(("finite", r.get_id()), z3.And(NINF < r, r < PINF))
+        return SF(r)
+    pinf = lambda x: x.r == PINF
+    ninf = lambda x: x.r == NINF
+    inf = lambda x: z3.Or(x.r == PINF, x.r == NINF)
+    if op in ("add", "sub"):
+        bb = b if op == "add" else SF(z3.If(b.r == PINF, NINF, z3.If(b.r == NINF, PINF, -b.r)), b.nan, b.minf)
+        newnan = z3.Or(z3.And(pinf(a), ninf(bb)), z3.And(ninf(a), pinf(bb)))
+        fin = a.r + bb.r
+        r = z3.If(z3.Or(pinf(a), pinf(bb)), PINF, z3.If(z3.Or(ninf(a), ninf(bb)), NINF, fin))
+        c.axiom(("finite?", fin.get_id()), z3.Implies(z3.And(z3.Not(inf(a)), z3.Not(inf(bb))), z3.And(NINF < fin, fin < PINF)))
     elif op == "mul":
-        r = a.r * b.r
+        newnan = z3.Or(z3.And(a.r == 0, inf(b)), z3.And(inf(a), b.r == 0))
+        fin = a.r * b.r
+        pos = z3.Or(z3.And(a.r > 0, b.r > 0), z3.And(a.r < 0, b.r < 0))
+        r = z3.If(z3.Or(inf(a), inf(b)), z3.If(pos, PINF, NINF), fin)
+        c.axiom(("finite?", fin.get_id()), z3.Implies(z3.And(z3.Not(inf(a)), z3.Not(inf(b))), z3.And(NINF < fin, fin < PINF)))
     else:
-        c.oblige("real.divisor_nonzero", b.r != 0, kind="side")
-        r = a.r / b.r
-    r = z3.simplify(r)
-    if not z3.is_rational_value(r):
-        c.axiom(("finite", r.get_id()), z3.And(NINF < r, r < PINF))
-    return SF(r)
+        c.oblige("real.divisor_nonzero", z3.Or(b.nan, b.r != 0), kind="side")
+        newnan = z3.And(inf(a), inf(b))
+        fin = a.r / b.r
+        pos = z3.Or(z3.And(a.r > 0, b.r > 0), z3.And(a.r < 0, b.r < 0))
+        r = z3.If(inf(b), z3.RealVal(0), z3.If(inf(a), z3.If(pos, PINF, NINF), fin))
+        c.axiom(("finite?", fin.get_id()), z3.Implies(z3.And(z3.Not(inf(a)), z3.Not(inf(b))), z3.And(NINF < fin, fin < PINF)))
+    nan = z3.simplify(z3.Or(a.nan, b.nan, newnan))
+    return SF(r, nan, True)
 
 
 def _arith_order(c, op, a, b):
